@@ -32,6 +32,12 @@ def run_property(prop, tier, seed, facts_by_config, configs, t0, evidence_dir=No
             continue
         ctx.config = cfg
         ctx.facts = facts_by_config[cfg]
+        need = getattr(mod, "CRATES", None)
+        if need and not set(need) <= set(ctx.facts.crates):
+            continue  # this configuration does not contain the crates the property is about
+        ctx.has_async = any("lock::AsyncLock" in (f.raw.get("self_ty") or "") for f in ctx.facts.fns.values())
+        if getattr(mod, "NEEDS_ASYNC", False) and not ctx.has_async:
+            continue
         try:
             mod.run(ctx)
         except Exception:
